@@ -23,7 +23,7 @@ fn boundary_script(which: u64) -> Vec<Op> {
             v4: v4.into(), v6: v6.into(),
         }
     };
-    match which % 5 {
+    match which % 6 {
         // aggregation threshold crossing up and down, same ASN
         0 => vec![
             roa("c1", &["10.0.0.0/24 => 65000"], &[]), Op::Quiesce,
@@ -73,7 +73,8 @@ fn boundary_script(which: u64) -> Vec<Op> {
                 asn: "AS65007".into(), v4: "10.0.5.0/24".into(), v6: "".into() },
             Op::Quiesce, Op::SyncAll, Op::Quiesce,
         ],
-        // key roll interleaved with content changes
+        // key roll interleaved with content changes (script 5: the same
+        // with ROAs in aggregated mode, pinned by run_history)
         _ => vec![
             roa("c1", &["10.0.0.0/24 => 65000"], &[]),
             Op::BgpsecAdd { ca: "c1".into(), asn: 65001, key: 0 },
@@ -168,14 +169,15 @@ fn run_history(
     let rrdp_interval = rng.below(2) as u32;
     let memory = rng.chance(1, 4);
     let depth4 = rng.chance(1, 2);
-    let boundary = if idx < 5 { Some(idx) }
-        else if rng.chance(1, 3) { Some(rng.below(5)) } else { None };
+    let boundary = if idx < 6 { Some(idx) }
+        else if rng.chance(1, 3) { Some(rng.below(6)) } else { None };
     // the scripts about aggregated ROAs (threshold crossing, partial removal
     // and partial loss of an aggregated ASN's prefixes) are about the
     // aggregating configurations: the pinned runs use (3,2), later ones any
     // configuration that aggregates at these sizes
     let agg = match boundary {
-        Some(0) | Some(1) if idx < 5 => (3, 2),
+        Some(0) | Some(1) if idx < 6 => (3, 2),
+        Some(5) => (1, 1),
         Some(0) | Some(1) if agg.0 > 10 => CONFIGS[(seed % 3) as usize],
         _ => agg,
     };
@@ -191,7 +193,7 @@ fn run_history(
     let n_setup = script.len();
     if let Some(b) = boundary { script.extend(boundary_script(b)) }
     let mut m = C01Monitor {
-        observe_every: if idx < 5 { 1 } else { 3 },
+        observe_every: if idx < 6 { 1 } else { 3 },
         last_hash: 0, prev_mode: None,
     };
     let res = runner::run(r, args, RunCfg {
@@ -218,8 +220,8 @@ fn main() {
     let mut idx = 0u64;
     loop {
         // boundary scripts 0..3 are spread over the first shards
-        let hist_idx = if idx == 0 && args.shard < 5 { args.shard }
-            else { 5 + idx };
+        let hist_idx = if idx == 0 && args.shard < 6 { args.shard }
+            else { 6 + idx };
         let seed = args.shard_seed().wrapping_mul(7919).wrapping_add(hist_idx);
         run_history(&mut r, &args, hist_idx, seed, None, None);
         idx += 1;
